@@ -58,7 +58,7 @@ def short(v, n=300):
 
 
 # ======================================================================================================================= R5
-def _getbins_facts(S0, right, vector, lo=0, hi=10, b0=None, bn=None, check=True, increasing=True):
+def _getbins_facts(S0, right, vector, lo=0, hi=10, b0=None, bn=None, check=True, increasing=True, mixed=False):
     E = S0.E
     truths = [(E("right"), right), (E("check_bounds"), check)]
     f = Facts(truths=truths)
@@ -68,7 +68,17 @@ def _getbins_facts(S0, right, vector, lo=0, hi=10, b0=None, bn=None, check=True,
     if b0 is not None:
         f.num_set(E("bins[0]"), b0)
         f.num_set(E("bins[-1]"), bn)
+    if mixed:
+        # np.any / np.all over the bin widths: one width is 1, another is 0 (a repeated edge)
+        f.elements = [_getbins_facts(S0, right, vector, lo, hi, b0, bn, check, True), _getbins_facts(S0, right, vector, lo, hi, b0, bn, check, False)]
     return f
+
+
+def _bound(ctx, S, what, node):
+    """every name read on the evaluated paths is bound (a deleted or mistyped definition is a NameError, whatever else holds)"""
+    names = sorted({u[0] for u in S.tr.unbound})
+    ctx.check(not names, f"{what}: every name the evaluated code reads is bound before it is read", S.tr.unbound[0][1] if names else node,
+              None if not names else {"unbound": names}, nontrivial=False)
 
 
 def r5_binify_guards(ctx):
@@ -97,7 +107,12 @@ def r5_binify_guards(ctx):
             for ph, bn in (("below", 11), ("on", 10), ("above", 9)):      # mx = 10 relative to the last edge bn
                 tab[(pl, ph)] = truth(verdict, _getbins_facts(S0, right, True, b0=b0, bn=bn))
         if any(v is None for v in tab.values()):
-            ctx.error(f"getbins (right={right}): the out-of-bounds verdict is not a function of (mn vs first edge, mx vs last edge)", S.ret_node(), short(verdict))
+            interior = [x for _, a_, x in apps(verdict, "idx") if same(a_[0], S0.E("bins")) and const_of(a_[1]) is not None and const_of(a_[1]) not in (0, -1)]
+            if interior:
+                ctx.fail(f"getbins (right={right}, bins {label}): the verdict compares the data range with the first and the last edge", S.ret_node(),
+                         {"verdict": short(verdict), "other edge used": [short(x) for x in interior]})
+            else:
+                ctx.error(f"getbins (right={right}): the out-of-bounds verdict is not a function of (mn vs first edge, mx vs last edge)", S.ret_node(), short(verdict))
             continue
         lo_out = {"below": True, "on": right, "above": False}
         hi_out = {"below": False, "on": not right, "above": True}
@@ -113,10 +128,12 @@ def r5_binify_guards(ctx):
         ok = all(tab[(pl, ph)] == (lo_out[pl] or hi_out[ph]) for pl in lo_out for ph in hi_out)
         ctx.check(ok, f"getbins (right={right}): the verdict is True on that test and False otherwise", S.ret_node(), None if ok else {str(k): v for k, v in tab.items()},
                   nontrivial=False)
-    # ---- scalar bins: automatic edges cover the data; the open edge is widened on the side `right` selects
-    oks = []
+    # ---- scalar bins (documented: bb = linspace(mn, mx, bins + 1); p = 0.001 (mx - mn); the open edge is moved outward by p; nothing is out of bounds)
+    oks, why = [], []
     for right in (True, False):
         S = XSem(ctx, fn, facts=_getbins_facts(S0, right, False), inline=inl, consts=consts)
+        if right:
+            _bound(ctx, S, "getbins", fn)
         ret = S.ret()
         if not isinstance(ret, tuple) or len(ret) != 2:
             ctx.error(f"getbins (scalar bins, right={right}): result", S.ret_node(), short(ret))
@@ -126,34 +143,44 @@ def r5_binify_guards(ctx):
         cells = S.cells(arr) if arr else []
         init = S.init(arr) if arr else None
         u = app(init, "call:np.linspace") if init is not None and not is_unknown(init) else None
-        ok = u is not None and len(u[1]) >= 3 and same(u[1][0], S0.E("mn")) and same(u[1][1], S0.E("mx")) and truth(ret[1], None) is False
-        moved = None
-        if ok and len(cells) == 1 and not cells[0][4]["guard"] and const_of(cells[0][1]) == (0 if right else -1) and not is_unknown(cells[0][2]):
-            try:
-                shift = need(cells[0][2]) - F.fn("idx", F.sym(arr), cells[0][1])
-                ms = [_getbins_facts(S0, right, False, lo=lo_, hi=hi_).num(shift) for lo_, hi_ in ((0, 10), (-7, 3), (2, 2000))]
-                moved = None if any(m is None for m in ms) or len({m > 0 for m in ms} | {m < 0 for m in ms}) != 2 else ms[0]
-            except Unsupported:
-                moved = None
-        if not ok or moved is None:
-            oks.append(None if ok and len(cells) == 1 and const_of(cells[0][1]) == (0 if right else -1) and moved is None else False)
-        else:
-            oks.append(moved < 0 if right else moved > 0)
+        if u is None or len(cells) != 1 or is_unknown(cells[0][1]) or is_unknown(cells[0][2]):
+            oks.append(None)            # edges not made by np.linspace plus one widening store: a shape this rule does not read
+            continue
+        pos, kw = call_args(u)
+        la = place(pos, kw, ["start", "stop", "num"])
+        k = 0 if right else -1
+        want = S0.E(f"X[{k}] {'-' if right else '+'} 0.001 * (mx - mn)", X=F.sym(arr))
+        nedges = la.get("num")
+        ok = same(la.get("start"), S0.E("mn")) and same(la.get("stop"), S0.E("mx")) and nedges is not None \
+            and (same(nedges, S0.E("int(bins[0]) + 1")) or same(nedges, S0.E("bins[0] + 1"))) \
+            and truth(ret[1], None) is False and not cells[0][4]["guard"] and const_of(cells[0][1]) == k and same(cells[0][2], want)
+        oks.append(ok)
+        if not ok:
+            why.append({"right": right, "edges": short(init), "store": [short(cells[0][1]), short(cells[0][2])], "verdict": short(ret[1])})
     if None in oks and False not in oks:
-        ctx.error("getbins (scalar bins): the widening of the open edge could not be read as a multiple of (mx - mn)", fn)
+        ctx.error("getbins (scalar bins): edges are not np.linspace(mn, mx, bins + 1) with one store that moves the open edge", fn)
     else:
-        ctx.check(all(oks), "getbins (scalar bins): edges span [mn, mx], the open edge (first for right=True, last otherwise) is moved outward, and nothing is out of bounds", fn)
-    # (mx, mn) given in the wrong order are swapped before use
-    S = XSem(ctx, fn, facts=_getbins_facts(S0, True, False, lo=10, hi=0), inline=inl, consts=consts)
-    ret = S.ret()
-    arr = sym_of(ret[0]) if isinstance(ret, tuple) and ret else None
-    u = app(S.init(arr), "call:np.linspace") if arr and S.init(arr) is not None and not is_unknown(S.init(arr)) else None
-    fx = _getbins_facts(S0, True, False, lo=10, hi=0)
-    ok = u is not None and len(u[1]) >= 2 and fx.num(u[1][0]) == 0 and fx.num(u[1][1]) == 10
-    ctx.check(ok, "getbins: (mx, mn) are ordered before use", fn, nontrivial=False)
-    S = XSem(ctx, fn, facts=_getbins_facts(S0, True, True, increasing=False), inline=inl, consts=consts)
-    ok = bool(S.tr.raises) and not S.returns()
-    ctx.check(ok, "getbins: explicit bins must be strictly increasing", fn, nontrivial=False)
+        ctx.check(all(oks), "getbins (scalar bins): edges span [mn, mx], the open edge (first for right=True, last otherwise) is moved outward, and nothing is out of bounds", fn,
+                  None if all(oks) else why)
+    # (mx, mn) given in the wrong order are swapped, a zero range is widened by 0.5 on both sides, before the edges are made
+    for lo_, hi_, w0, w1, text in ((10, 0, 0, 10, "getbins: (mx, mn) are ordered before use"), (5, 5, Fraction(9, 2), Fraction(11, 2), "getbins: a zero range (mx == mn) is widened to (mn - 0.5, mx + 0.5)")):
+        fx = _getbins_facts(S0, True, False, lo=lo_, hi=hi_)
+        S = XSem(ctx, fn, facts=fx, inline=inl, consts=consts)
+        ret = S.ret()
+        arr = sym_of(ret[0]) if isinstance(ret, tuple) and ret else None
+        u = app(S.init(arr), "call:np.linspace") if arr and S.init(arr) is not None and not is_unknown(S.init(arr)) else None
+        if u is None:
+            ctx.error(text, fn, short(ret))
+            continue
+        pos, kw = call_args(u)
+        la = place(pos, kw, ["start", "stop", "num"])
+        ok = fx.num(la.get("start")) == w0 and fx.num(la.get("stop")) == w1
+        ctx.check(ok, text, fn, None if ok else {"edges": short(S.init(arr))}, nontrivial=False)
+    S = XSem(ctx, fn, facts=_getbins_facts(S0, True, True, mixed=True), inline=inl, consts=consts)
+    Sg = XSem(ctx, fn, facts=_getbins_facts(S0, True, True), inline=inl, consts=consts)
+    ok = bool(S.tr.raises) and not S.returns() and not Sg.tr.raises and bool(Sg.returns())
+    ctx.check(ok, "getbins: explicit bins must be strictly increasing", fn, None if ok else {"a repeated edge is rejected": bool(S.tr.raises), "increasing edges are accepted": not Sg.tr.raises},
+              nontrivial=False)
 
     # ---- _binify
     fb = ctx.src.func(CYC, "_binify")
@@ -174,6 +201,7 @@ def r5_binify_guards(ctx):
     roles = {}
     if True in acc and False in acc:
         bad = None
+        shape = True
         for ens, (S, mat, cell) in acc.items():
             _, ix = peel(F.fn("idx", F.sym(mat), cell[1]))
             got = []
@@ -186,6 +214,7 @@ def r5_binify_guards(ctx):
                     dg = None
                 if dg is None or len(k) != 1:
                     bad = f"index {pos} of the accumulation is not digitize(...)[k] - 1: {short(x)}"
+                    shape = False
                     break
                 pos_a, kw_a = call_args(dg)
                 a = place(pos_a, kw_a, ["x", "bins", "right"])
@@ -210,7 +239,10 @@ def r5_binify_guards(ctx):
                 bad = f"value added: {short(added)}"
                 break
         ok = bad is None and roles.get(True) == roles.get(False)
-        ctx.check(ok, "_binify: amplitude (column 0) and mean (column 1) are binned with digitize(..., right=right) - 1", fb, bad)
+        if not shape:
+            ctx.error("_binify: amplitude (column 0) and mean (column 1) are binned with digitize(..., right=right) - 1", fb, bad)
+        else:
+            ctx.check(ok, "_binify: amplitude (column 0) and mean (column 1) are binned with digitize(..., right=right) - 1", fb, bad)
         # guard truth tables: row r against [0, n_mean), column c against [0, n_range)
         if ok:
             for ens, (S, mat, cell) in acc.items():
@@ -240,9 +272,12 @@ def r5_binify_guards(ctx):
             S = acc[True][0]
             z = [c for c in S.calls("np.zeros") if c[1] and isinstance(c[1][0], tuple) and len(c[1][0]) == 2]
             ini = S.init(acc[True][1])
+            def f64(c):
+                d = placed(c, ["shape", "dtype"]).get("dtype")
+                return d is None or sym_of(d) in ("np.float64", "float", "np.double", "'float64'", "'f8'")
             ok = len(z) >= 1 and const_of(ini) == 0 and any(same(c[1][0][0], Sb0.E(f"len({roles[True]['mean']}) - 1")) and
-                                                            same(c[1][0][1], Sb0.E(f"len({roles[True]['amp']}) - 1")) for c in z)
-            ctx.check(ok, "_binify: the table has one row per mean bin and one column per amplitude bin", fb, None if ok else [short(c[1]) for c in z])
+                                                            same(c[1][0][1], Sb0.E(f"len({roles[True]['amp']}) - 1")) and f64(c) for c in z)
+            ctx.check(ok, "_binify: the table has one row per mean bin and one column per amplitude bin (double precision counts)", fb, None if ok else [short(c[1]) for c in z])
     # ---- binify
     bf = ctx.src.func(CYC, "binify")
     pf = params(bf)
@@ -282,6 +317,7 @@ def r5_binify_guards(ctx):
     S, gb, bn = res[True]
     G = {}
     bad = None
+    undecided = False
     if len(gb) != 2 or len(bn) != 1:
         bad = f"{len(gb)} getbins calls, {len(bn)} _binify calls"
     else:
@@ -308,12 +344,18 @@ def r5_binify_guards(ctx):
             for oa in (True, False):
                 for om in (True, False):
                     f = Facts(truths=[(F.fn("idx", G["amp"], F.const(1)), oa), (F.fn("idx", G["mean"], F.const(1)), om)])
-                    if truth(ens, f) is not (oa or om):
+                    t = truth(ens, f)
+                    if t is None:
+                        undecided = True
+                    if t is not (oa or om):
                         ok = False
-                        bad = {"guard argument": short(ens), "amplitude out": oa, "mean out": om, "guard": truth(ens, f)}
+                        bad = {"guard argument": short(ens), "amplitude out": oa, "mean out": om, "guard": t}
         else:
             bad = {k: short(v, 100) for k, v in a.items()}
-    ctx.check(bad is None, "binify: the index guard is switched on exactly when getbins reports a value out of bounds (amplitude or mean)", bf, bad)
+    if len(gb) != 2 or len(bn) != 1 or undecided:
+        ctx.error("binify: the index guard is switched on exactly when getbins reports a value out of bounds (amplitude or mean)", bf, bad)
+    else:
+        ctx.check(bad is None, "binify: the index guard is switched on exactly when getbins reports a value out of bounds (amplitude or mean)", bf, bad)
     S2, gb2, bn2 = res[False]
     ok = len(bn2) == 1 and len(gb2) == 2
     if ok:
@@ -327,22 +369,28 @@ def r5_binify_guards(ctx):
     Ss = XSem(ctx, sc, consts=consts, inline={k: v for k, v in table.items() if k not in ("sigcount", "binify", "rainflow", "findap", "getbins", "_binify")})
     cb = Ss.calls("binify")
     ok = len(cb) == 1
+    if not cb:
+        ctx.error("sigcount never overrides check_bounds", sc, "no call of binify")
     if ok:
         a = placed(cb[0], pf)
         ok = all(same(a.get(n), Ss.E(n)) for n in ("ampbins", "meanbins", "right")) and ("check_bounds" not in a or truth(a["check_bounds"], None) is True)
         u = app(a.get("rf"), "call:rainflow")
         ok = ok and u is not None and same(call_args(u)[0][0], Ss.E("sig[findap(sig)]"))
-    ctx.check(ok, "sigcount never overrides check_bounds", sc, None if ok or not cb else {k: short(v, 80) for k, v in placed(cb[0], pf).items()})
+    if cb:
+        ctx.check(ok, "sigcount never overrides check_bounds", sc, None if ok else {k: short(v, 80) for k, v in placed(cb[0], pf).items()})
     # labels
     if bad is None:
         df = [c for c in S.calls("pd.DataFrame") if "index" in c[2] and "columns" in c[2]]
         ok = len(df) == 1
         det = None
+        shape = ok
         if ok:
             for kw, which in (("index", "mean"), ("columns", "amp")):
                 u = app(df[0][2][kw], "comp")
                 e = app(u[1][0], "call:.format") if u is not None else None
                 edges = F.fn("idx", G[which], F.const(0))
+                if e is None or len(e[1]) != 3:
+                    shape = False
                 if e is None or len(e[1]) != 3 or not same(e[1][1], S.ev.mk_idx(edges, F.sym("_i0"))) or not same(e[1][2], S.ev.mk_idx(edges, F.sym("_i0") + 1)) \
                         or not same(u[1][1], F.fn("len", edges) - 1):
                     ok = False
@@ -354,7 +402,11 @@ def r5_binify_guards(ctx):
                     if sp is None or not isinstance(sp[0], str) or not isinstance(sp[-1], str) or sp[0][:1] != first or sp[-1][-1:] != last:
                         ok = False
                         det = {"label form": short(fv), "right": rt}
-        ctx.check(ok, "binify: row labels come from the mean bins, column labels from the amplitude bins, with the bracket style of `right`", bf, det)
+        if not shape:
+            ctx.error("binify: row labels come from the mean bins, column labels from the amplitude bins, with the bracket style of `right`", bf,
+                      det or "labels are not [form.format(lo, hi) for each bin] handed to one pd.DataFrame(..., index=, columns=)")
+        else:
+            ctx.check(ok, "binify: row labels come from the mean bins, column labels from the amplitude bins, with the bracket style of `right`", bf, det)
 
 
 # ======================================================================================================================= R6
@@ -433,6 +485,7 @@ def r6_tolerance_strictness(ctx):
     for name, fn, S, pp in sites:
         if len(pp) < 2:
             raise AnchorError(f"{name}(y, tol)")
+        _bound(ctx, S, name, fn)
         cm = _tol_cmps(_all_values(S), pp[1])
         want_t = [S.E(f"abs({pp[1]} * np.max(abs(np.diff({pp[0]}))))"), S.E(f"abs({pp[1]}) * np.max(abs(np.diff({pp[0]})))")]
         tol_ok = []
@@ -452,15 +505,19 @@ def r6_tolerance_strictness(ctx):
             ctx.check(ok, f"{name}: the tolerance is relative to the largest sample-to-sample difference", fn, None if ok else [short(t) for _, _, t in cm])
     ctx.check(n >= 4, f"tolerance rule bound to {n} comparisons in find_unique and findap", LOC + ":1", nontrivial=False)
     # find_unique itself: the mask is (True, |diff| > tolerance)
-    u = app(fu, "hcat")
+    u = app(fu, "hcat") if fu is not None and not is_unknown(fu) and not isinstance(fu, tuple) else None
     ok = u is not None and len(u[1]) == 2 and truth(u[1][0], None) is True
-    if ok:
+    if u is None or len(u[1]) != 2:
+        ctx.error("find_unique: the first sample is unique; a later sample is unique exactly when it differs from its predecessor by more than the tolerance", lf,
+                  "the mask is not a concatenation (True, <comparison>): " + short(fu))
+    elif ok:
         cm = _tol_cmps([u[1][1]], pl[1])
-        ok = len(cm) == 1 and same(cm[0][0], u[1][1]) and same(cm[0][1], Sfu.E(f"abs(np.diff({pl[0]}))"))
-        r = _strict(*cm[0]) if ok else None
+        ok = len(cm) == 1 and same(cm[0][1], Sfu.E(f"abs(np.diff({pl[0]}))"))
+        r = _strict(u[1][1], cm[0][1], cm[0][2]) if ok else None
         ok = ok and r is not None and r["above"] is True and r["on"] is False and r["below"] is False
-    ctx.check(ok, "find_unique: the first sample is unique; a later sample is unique exactly when it differs from its predecessor by more than the tolerance", lf,
-              None if ok else short(fu))
+    if u is not None and len(u[1]) == 2:
+        ctx.check(ok, "find_unique: the first sample is unique; a later sample is unique exactly when it differs from its predecessor by more than the tolerance", lf,
+                  None if ok else short(fu))
     # ---- the vectorised (numpy) variant of findap
     vec = [v for v in variants if not v[4]]
     if len(vec) != 1:
@@ -498,9 +555,11 @@ def _findap_numpy(ctx, variant, fu, pl, consts, table, lf):
             shape_ok = False
             continue
         mask = arr
-        if not allu:
-            cells = S.cells(arr)
-            ok = const_of(S.init(arr)) == 0 and len(cells) == 1 and not cells[0][4]["guard"] and U is not None and same(cells[0][1], U) and sym_of(cells[0][2]) is not None
+        cells = S.cells(arr)
+        scattered = len(cells) == 1 and sym_of(cells[0][2]) is not None and bool(S.cells(sym_of(cells[0][2])))
+        if scattered or not allu:
+            # the mask of the retained samples is expanded to full size: zeros, then the mask stored at the retained positions
+            ok = scattered and const_of(S.init(arr)) == 0 and not cells[0][4]["guard"] and U is not None and same(cells[0][1], U)
             if not ok:
                 scatter_ok = False
                 probs.append(f"expansion to full size: {[(short(c[1], 80), short(c[2], 80)) for c in cells]}")
@@ -546,8 +605,10 @@ def _findap_numpy(ctx, variant, fu, pl, consts, table, lf):
             shape_ok = False
             probs.append(f"all-unique={allu}: mask stores {[(short(c[1], 60), short(c[2], 160)) for c in cells]} init {short(ini)}")
             continue
-        want_yu = y if allu else (S.E("Y[U]", Y=y, U=U) if U is not None else None)
-        if not same(YU, want_yu):
+        want_yu = [S.E("Y[U]", Y=y, U=U)] if U is not None else []
+        if allu:
+            want_yu.append(y)           # nothing was removed: y[U] is y
+        if not any(same(YU, w) for w in want_yu):
             ret_ok = False
             probs.append(f"all-unique={allu}: samples worked on: {short(YU)}")
         if not same(Sg, S.E("np.sign(V[1:] - V[:-1])", V=YU)):
@@ -680,19 +741,22 @@ def _cumcount(ctx, S, q, fn, roles=None, nbins=None):
         if u is not None:
             val, dom = u[1][0], u[1][1]
             ix = ix + [F.sym(f"_i{len(c[4]['loops'])}")]
-        sm = app(val, "call:np.sum")
-        if sm is None or len(sm[1]) != 1 or len(ix) != 2:
+        sm = app(val)
+        if sm is None or not sm[0].startswith("call:") or len(sm[1]) != 1 or isinstance(sm[1][0], str) or len(ix) != 2:
             continue
         x = app(sm[1][0], "idx")
         m = app(x[1][1]) if x is not None and not isinstance(x[1][1], str) else None
         if m is None or not m[0].startswith("cmp:") or len(m[1]) != 2:
             continue
-        found.append((c, ix, dom, x[1][0], x[1][1], m))
+        found.append((c, ix, dom, x[1][0], x[1][1], m, sm[0]))
     msg = f"{q}: Count[j, jj] = number of cycles with amplitude >= level jj (non-increasing in the level; level 0 = 0 counts every cycle)"
     if len(found) != 1:
         ctx.error(msg, fn, f"{len(found)} stores of a masked sum of cycle counts")
         return None
-    c, (J, K), dom, ccol, mask, m = found[0]
+    c, (J, K), dom, ccol, mask, m, red = found[0]
+    if red != "call:np.sum":
+        ctx.fail(msg, c[3], {"the masked cycle counts are reduced with": red[5:], "expected": "their sum"})
+        return None
     lev = amp = None
     for a, b in ((m[1][0], m[1][1]), (m[1][1], m[1][0])):
         r, ixs = peel(a)
@@ -736,8 +800,13 @@ def _cumcount(ctx, S, q, fn, roles=None, nbins=None):
 
 
 # ======================================================================================================================= R3
+class _Mismatch(Exception):
+    pass
+
+
 def _columns(v, cols):
-    """a row expression over idx(Count, (:, a:b)) atoms evaluated on generic columns `cols` -> list of values, or None"""
+    """a row expression over idx(Count, (:, a:b)) atoms evaluated on generic columns `cols` -> (list of values, array) ; None when the
+    expression is not of that form; _Mismatch when it is but the pieces do not fit (different lengths, rows sliced instead of columns)"""
     n = len(cols)
     if v is None or is_unknown(v) or isinstance(v, (tuple, str)):
         return None
@@ -750,8 +819,12 @@ def _columns(v, cols):
         av = F.Rat(F.Poly.atom(mono[0][0]))
         b, ix = peel(av)
         if len(ix) == 2:
-            s0 = app(ix[0], "slice")
-            if s0 is None or not all(sym_of(x) == "None" for x in s0[1]):
+            s0, s1 = app(ix[0], "slice"), app(ix[1], "slice")
+            if s0 is None:
+                return None
+            if not all(sym_of(x) == "None" for x in s0[1]):
+                if s1 is not None and all(sym_of(x) == "None" for x in s1[1]):
+                    raise _Mismatch(f"{short(av)} slices the frequencies (rows), not the bins (columns)")
                 return None
             ix = ix[1:]
         if len(ix) != 1:
@@ -767,14 +840,15 @@ def _columns(v, cols):
                 bounds.append(int(const_of(x)))
             else:
                 return None
-        part = [(b, k) for k in list(range(n))[slice(*bounds)]]
-        vec = [coef / v.d.const_value() * cols[k] for _, k in part]
-        bases = {repr(x[0]) for x in part}
+        part = list(range(n))[slice(*bounds)]
+        vec = [coef / v.d.const_value() * cols[k] for k in part]
         if out is None:
             out = (vec, b)
         else:
-            if len(out[0]) != len(vec) or not same(out[1], b):
+            if not same(out[1], b):
                 return None
+            if len(out[0]) != len(vec):
+                raise _Mismatch(f"pieces of different length are combined: {short(v)}")
             out = ([p + q for p, q in zip(out[0], vec)], b)
     return out
 
@@ -788,14 +862,22 @@ def r3_telescoping(ctx):
     C = [F.sym(f"c{i}") for i in range(5)]
     vec = []
     ok = hc is not None and CT is not None
+    mism = None
     if ok:
         for part in hc[1]:
-            r = _columns(part, C)
+            try:
+                r = _columns(part, C)
+            except _Mismatch as e:
+                mism = str(e)
+                break
             if r is None or sym_of(r[1]) != CT:
                 ok = False
                 break
             vec += r[0]
-    if not ok:
+    _bound(ctx, S, "fdepsd [absacce]", fn)
+    if mism:
+        ctx.fail("fdepsd: BinCount has one entry per bin", fn, mism)
+    elif not ok:
         ctx.error("fdepsd: BinCount has one entry per bin", fn, short(Z))
     else:
         ok = len(vec) == len(C)
@@ -833,6 +915,7 @@ def r3_telescoping(ctx):
             if t is not None:
                 ini = t[1][0]
             ok = ok and (same(ini, S_.E("np.arange(nbins, dtype=float) / nbins")) or same(ini, S_.E("np.arange(nbins) / nbins")))
+            ok = ok and _levels_shape(S_, LV)
             dom_ok = any(same(inf["dom"], w) for w in (S_.E("nbins"), S_.E("len(L)", L=S_.ev.mk_idx(F.sym(LV), inf["J"])), S_.E("L.shape[1]", L=F.sym(LV))))
             ctx.check(ok and dom_ok, "fdepsd: amplitude levels are k/nbins of the largest cycle amplitude, k = 0..nbins-1 (first level 0)", f_,
                       None if ok and dom_ok else {"levels created from": short(S_.init(LV)), "scaled by": [short(c[2]) for c in sc], "levels counted": short(inf["dom"])})
@@ -846,12 +929,41 @@ def r3_telescoping(ctx):
             ctx.check(ok, "_dofde: the amplitude levels of the row are scaled by the largest cycle amplitude before counting", f_, None if ok else [short(c[2]) for c in sc])
 
 
+def _levels_shape(S, LV):
+    """the array of levels has one row per frequency and one column per bin: created as zeros((len(freq), nbins)) (+ the fractions) or by
+    tiling the fractions len(freq) times"""
+    seen = set()
+    names = [LV]
+    while names:
+        nm = names.pop()
+        if nm in seen:
+            continue
+        seen.add(nm)
+        al = S.tr.allocs.get(nm)
+        if al is not None:
+            a = place(al[1], al[2], ["shape", "dtype"] if al[0] != "np.tile" else ["A", "reps"])
+            shp = a.get("reps" if al[0] == "np.tile" else "shape")
+            if isinstance(shp, tuple) and len(shp) == 2:
+                rows = any(same(shp[0], w) for w in (S.E("freq.size"), S.E("len(freq)")))
+                if al[0] == "np.tile":
+                    return rows and const_of(shp[1]) == 1
+                return rows and same(shp[1], S.E("nbins"))
+            return False
+        ini = S.init(nm)
+        if ini is None or is_unknown(ini) or isinstance(ini, tuple):
+            return False
+        names += [sym_of(x) for x in walk(ini) if sym_of(x) in S.tr.inits]
+    return False
+
+
 # ======================================================================================================================= R1
 def r1_exponents(ctx):
     fn = None
     for absacce, label in ((True, "absacce"), (False, "pvelo")):
         S, out, fn = _fde(ctx, absacce)
         E = S.E
+        if not absacce:
+            _bound(ctx, S, "fdepsd [pvelo]", fn)
         psd, peak = _frame(S, out.get("psd")), _frame(S, out.get("peakamp"))
         dis, dit, vt = _frame(S, out.get("di_sig")), _frame(S, out.get("di_test")), _frame(S, out.get("var_test"))
         BA = _strip(S, out.get("binamps"))
@@ -872,6 +984,9 @@ def r1_exponents(ctx):
                     want = E(f"(A[_i0] ** {b}) * Z[_i0]", A=BA, Z=Z)
                 ok = el is not None and same(el, want)
                 exps.append(ok)
+                if el is None or want is None:
+                    ctx.error(f"fdepsd: damage indicator Df{b} = sum(amplitude^{b} * non-cumulative count)", fn, "the column is not filled element by element from binamps / bincount")
+                    continue
                 ctx.check(ok, f"fdepsd: damage indicator Df{b} = sum(amplitude^{b} * non-cumulative count)", cell[3] if cell else fn,
                           None if ok else {"element": short(el), "expected": f"binamps[j]**{b} . bincount[j]"})
             ctx.check(all(exps), "fdepsd: fatigue exponents b4, b8, b12 are 4, 8, 12", fn)
@@ -991,6 +1106,7 @@ def r7_amplitude_scaling(ctx):
     Sd = XSem(ctx, fd, consts=consts, inline={k: v for k, v in table.items() if k not in ("fdepsd", "_dofde", "_mk_par_globals")})
     Dd = Degrees(Sd, {"SIG_": 1}, tables={"call:cyclecount.rainflow", "call:rainflow"})
     n += _homogeneous_tests(ctx, Sd, Dd, "_dofde", fd)
+    _bound(ctx, Sd, "_dofde", fd)
     ctx.check(n >= 4, f"scale-invariance rule bound to {n} amplitude comparisons in fdepsd and _dofde", FDE + ":1", nontrivial=False)
 
 
